@@ -2,6 +2,7 @@
 CLAIMS = {
  'decimal': 'XMLBigDecimal::parseDecimal (both overloads) on every string of <= N units: accepted iff xs:decimal lexical space after trimming, exact sign / digit string / totalDigits / fractDigits, memory safe',
  'wsfacet': 'XMLString::replaceWS/collapseWS/removeWS/isWSReplaced/isWSCollapsed on every string of <= N units: exact whiteSpace-facet normalisation, predicates exact on fixed points, idempotent, memory safe',
+ 'dtparse_*': 'XMLDateTime::parseDate / parseYearMonth / parseYear / parseMonthDay / parseDay / parseMonth on every zero-terminated buffer of <= N units (arbitrary units behind the terminator): memory safe; for non-negative years accepted iff in the lexical space of the type with valid month/day/time zone',
  'dt_normalize': 'XMLDateTime::normalize for every valid timezoned instant: fields equal the loop-free reference (same instant in UTC), in range, marked UTC',
  'hexbin': 'HexBin::isArrayByteHex/getDataLength/decodeToXMLByte/getCanonicalRepresentation on every string of <= N units: accepted iff XSD lexical space, exact decode, canonical = upper case, idempotent, memory safe',
  'base64': 'Base64::decodeToXMLByte/getDataLength/getCanonicalRepresentation/encode (Conf_Schema) on every string of <= N units: accepted iff XSD E2-54 grammar, exact decode, encode(decode) canonical, memory safe',
@@ -19,6 +20,11 @@ HARNESSES = [
       defs={'quick': {'N': 4}, 'thorough': {'N': 6}}, unwind='N+3', unwind_gentle=True, unwind_cap=40, timeout={'quick': 900, 'thorough': 2400}, mem_gb=16),
  dict(name='wsfacet', entry='harness_wsfacet', srcs=['C09/wsfacet.cpp'], tus=['util/XMLString.cpp'],
       defs={'quick': {'N': 5}, 'thorough': {'N': 7}}, unwind='N+3', unwind_gentle=True, unwind_cap=40, timeout={'quick': 900, 'thorough': 2400}),
+ ] + [
+ dict(name='dtparse_' + nm, entry='harness_dateparse', srcs=['C09/dateparse.cpp'], tus=['util/XMLDateTime.cpp', 'util/XMLString.cpp'], cuts=['_ZN11xercesc_4_09XMLString9binToTextE*', '_ZN11xercesc_4_09XMLString10sizeToTextE*'],
+      defs={'quick': {'N': nq, 'OP': op}, 'thorough': {'N': nt, 'OP': op}}, unwind='N+9', unwind_gentle=True, unwind_cap=48, timeout={'quick': 1200, 'thorough': 3000}, mem_gb=20)
+ for op, nm, nq, nt in ((0, 'date', 12, 13), (1, 'gYearMonth', 9, 13), (2, 'gYear', 11, 12), (3, 'gMonthDay', 8, 13), (4, 'gDay', 6, 11), (5, 'gMonth', 7, 12))
+ ] + [
  dict(name='dt_normalize', entry='harness_dt_normalize', srcs=['C09/datetime.cpp'], tus=['util/XMLDateTime.cpp'], unwind=4, timeout={'quick': 600, 'thorough': 1700}),
 ]
 LEVEL_TEXT = ('Bounded model checking of the real datatype kernels against references written from XML Schema Part 2: for ALL strings up to the stated length '
